@@ -97,3 +97,16 @@ Proof.
   - rewrite firstn_nil. reflexivity.
   - destruct k as [|k]; [lia|]. destruct i as [|i]; simpl; [reflexivity|]. apply IH. lia.
 Qed.
+
+(* a prefix of a duplicate-free list that contains every element is the whole list *)
+Lemma nodup_prefix_cover (ids : list nat) : forall k, NoDup ids -> k <= length ids ->
+  (forall q, In q ids -> In q (firstn k ids)) -> k = length ids.
+Proof.
+  induction ids as [|x ids IH]; intros k ND L C.
+  - simpl in *. lia.
+  - inversion ND as [|? ? Hnot ND']; subst. destruct k as [|k].
+    + exfalso. apply (C x). left. reflexivity.
+    + simpl. f_equal. apply IH; [exact ND'|simpl in L; lia|].
+      intros q Hq. destruct (C q (or_intror Hq)) as [E|H]; [|exact H].
+      subst q. contradiction.
+Qed.
